@@ -91,6 +91,7 @@ type Req struct {
 	Kind   string `json:"kind"`             // pub0 pub1 pub2 sub unsub ping
 	Forced bool   `json:"forced,omitempty"` // the ack is processed before the sending call registered the request
 	DupRec bool   `json:"duprec,omitempty"` // pub2: PUBREC sent twice
+	CbErr  bool   `json:"cberr,omitempty"`  // the application's completion callback returns an error (its own business: the other requests' completions are not affected)
 }
 
 type C12Case struct {
@@ -168,6 +169,9 @@ func runC12(c C12Case) (res c12result) {
 				early[i].Store(true)
 			}
 			fired[i].Add(1)
+			if c.Reqs[i].CbErr {
+				return fmt.Errorf("application error in the completion callback of request %d", i)
+			}
 			return nil
 		}
 	}
@@ -400,6 +404,9 @@ func genC12(t *rapid.T) C12Case {
 		}
 		if k == "pub2" {
 			r.DupRec = rapid.IntRange(0, 3).Draw(t, "duprec") == 0
+		}
+		if k != "pub0" {
+			r.CbErr = rapid.IntRange(0, 4).Draw(t, "cberr") == 0
 		}
 		c.Reqs = append(c.Reqs, r)
 	}
